@@ -294,6 +294,11 @@ int main() {
         } else if (cmd == "charwl") {
             double h2col, cocol; in >> h2col >> cocol;
             printf("{\"ev\":\"charwl\",\"value\":"); pnum(GetCharactWavelength(h2col, cocol)); printf("}\n");
+        } else if (cmd == "mantle") {
+            double *y = (double *)malloc(sizeof(double) * NEQUATIONS);
+            for (int i = 0; i < NEQUATIONS; i++) y[i] = g_y[i];
+            printf("{\"ev\":\"mantle\",\"mantle\":"); pnum(GetMantleDens(y)); printf("}\n");
+            free(y);
         } else if (cmd == "consts") {
             printf("{\"ev\":\"consts\"");
 #define VERIF_CONST(c) printf(",\"" #c "\":"); pnum((double)c);
